@@ -9,6 +9,10 @@ CHECKS = {
    text="Complete enumeration of a finite input space against an independent reference: every integer lifetime request 0..1 200 000 ms (thorough: ..7 000 000) through the real quantiser, all 256 lifetime codes, every MIB default 1..600 s, the lifetime/hop fields of really emitted packets of every transport type (parsed by the reference codec) and all 256x256 (RHL,MHL) pairs at the receiver. Exhaustive over the stated lattice, so a wrong boundary anywhere in it is found, which value-sampled unit tests cannot promise.",
    note="Trusted: CPython, mc/ref/lifetime.py (max over the 256 codes), mc/ref/gn_codec.py (struct-level parser written from EN 302 636-4-1 clause 9).",
    technique="exhaustive finite-domain enumeration of the real code against a reference model (bounded model checking of inputs)"),
+ "C06": dict(level="model_checking", design="3/C06",
+   text="Explicit-state breadth-first search over event histories of the real router: (1) one real forwarder fed crafted TSB/GBC/GAC/GUC/LS packets (fresh, duplicate, replay; sequence numbers incl. wrap; DPL lengths 1-3; hop limits 0,1,2,3,255 and the full 0..255 grid) in lock-step with a reference duplicate-window/forwarding model, every forwarded frame compared octet for octet; (2) the complete reachable state graph of three real routers in line and mesh under SIMPLE and CBF forwarding with every delivery order and every CBF-timer expiry order, checked for at-most-once delivery/transmission, strictly decreasing hop limit, duplicate cancelling the buffered copy, acyclicity and quiet terminal states (termination of the flood). The graphs of part 2 close, so the result covers every interleaving of those worlds, which no unit test with mocks reaches.",
+   note="Trusted: CPython, deepcopy snapshots (cross-checked by replaying histories on fresh objects), RefForwarder model and mc/ref/gn_codec.py. Bounded to <=2 originated packets, 3 stations, depth 5 (7 thorough) for the single-forwarder histories.",
+   technique="explicit-state BFS over real objects with reference model in lock-step; complete reachable state graph + cycle detection"),
 }
 
 NOT_APPLICABLE = {}
